@@ -94,15 +94,15 @@ func registerAll() {
 	const tCFG = "CFG path rules on go/ssa (must-precede, edge dominance, loop-iteration coverage, error-edge reachability)"
 	propTable["C01"] = &PropSpec{
 		ID:    "C01",
-		Rules: []string{"L8", "L7", "L9", "R6", "B1", "L6", "R1", "N1", "N2", "N4"},
-		Explanation: "structural necessary conditions of sequence behaviour: every index-out-of-bounds rejection is taken exactly when the request is out of range for the operation (index >= count for access, index > count for insertion; decided by case analysis over the three orderings of index and bound) and cannot be passed when out of range; whatever replaces the root carries the id read from the previous root (so the array can always be reopened by its identifier); every write of an element list or child header table is accompanied on every success path by the matching size / count / cumulative-count update; after a child mutation every success path evaluates the split / merge decision and refreshes the parent's header copy, and the handle evaluates root.IsFull and single-child promotion; out-of-range requests are rejected before any effect; elements are materialised with the array's inline limit; every slab mutated or created by an operation is stored (or its parent notified) before the operation returns, so a later reopen by the root identifier sees the same sequence; the index kept for nested containers is deleted with the element it tracks and reset by a bulk pop (a stale entry makes the next in-range Insert fail); a nested container's parent-updater callback writes into the array only after confirming, by value id, that the slot still holds that container.",
+		Rules: []string{"L8", "L7", "L9", "R6", "B1", "L6", "R1", "N1", "N2", "N4", "L16"},
+		Explanation: "structural necessary conditions of sequence behaviour: every index-out-of-bounds rejection is taken exactly when the request is out of range for the operation (index >= count for access, index > count for insertion; decided by case analysis over the three orderings of index and bound) and cannot be passed when out of range; whatever replaces the root carries the id read from the previous root (so the array can always be reopened by its identifier); every write of an element list or child header table is accompanied on every success path by the matching size / count / cumulative-count update; after a child mutation every success path evaluates the split / merge decision and refreshes the parent's header copy, and the handle evaluates root.IsFull and single-child promotion; out-of-range requests are rejected before any effect; elements are materialised with the array's inline limit; every slab mutated or created by an operation is stored (or its parent notified) before the operation returns, so a later reopen by the root identifier sees the same sequence; the index kept for nested containers is deleted with the element it tracks and reset by a bulk pop (a stale entry makes the next in-range Insert fail); a nested container's parent-updater callback writes into the array only after confirming, by value id, that the slot still holds that container. Cached sizes start from the encoded prefix of the object's kind and state wherever they are established or re-based (a wrong prefix wraps around on the next re-basing and makes an in-range request fail in splitRoot).",
 		NotDecided: "that returned elements equal the sequence model: index routing (linear scan / binary search over cumulative counts), split/merge/borrow arithmetic and 'in-range requests never fail' are value-dependent and not decided statically.",
 		Technique:  "co-update path rules, must-pass-through rules and reject-before-effect typestate over go/ssa",
 	}
 	propTable["C02"] = &PropSpec{
 		ID:    "C02",
-		Rules: []string{"L10", "L7", "L9", "R6", "K1", "K2", "L6", "R1", "N2", "N4"},
-		Explanation: "structural necessary conditions of dictionary behaviour: the element count changes exactly on (Set succeeded, no existing value) and on successful Remove; digests, elements and cached sizes are co-updated on every success path; the split / merge decision and header refresh follow every child mutation; absent keys and the collision limit are reported before any effect; keys and values are materialised with the key limit and a value limit derived from the same element's key; collision groups and element lists report their entry counts; every slab mutated or created is stored before the operation returns; a nested container's parent-updater callback writes into the map only after confirming, by value id, that the slot still holds that container.",
+		Rules: []string{"L10", "L7", "L9", "R6", "K1", "K2", "L6", "R1", "N2", "N4", "L16", "X7"},
+		Explanation: "structural necessary conditions of dictionary behaviour: the element count changes exactly on (Set succeeded, no existing value) and on successful Remove; digests, elements and cached sizes are co-updated on every success path; the split / merge decision and header refresh follow every child mutation; absent keys and the collision limit are reported before any effect; keys and values are materialised with the key limit and a value limit derived from the same element's key; collision groups and element lists report their entry counts; every slab mutated or created is stored before the operation returns; a nested container's parent-updater callback writes into the map only after confirming, by value id, that the slot still holds that container. Cached sizes start from the encoded prefix of the object's kind and state wherever they are established or re-based (a wrong prefix wraps around on the next re-basing and makes an in-range request fail in splitRoot). Decoded element lists own their digest slices.",
 		NotDecided: "dictionary equivalence, digest routing (binary search over sorted digests), collision-group semantics: value-dependent.",
 		Technique:  "control-dependence and co-update path rules, reject-before-effect typestate",
 	}
@@ -143,8 +143,8 @@ func registerAll() {
 	}
 	propTable["C10"] = &PropSpec{
 		ID:    "C10",
-		Rules: []string{"R4", "R5", "R1", "L8", "N1", "N2", "N4", "L9", "L6", "L12"},
-		Explanation: "every exported mutator of Array/OrderedMap (computed from may-effects on slab state over a closure-granular call graph) calls notifyParentIfNeeded on every success path (extra-data-only mutators may store the standalone root on the not-inlined edge instead); every child handed out by lookup/mutable iteration or stored by Set/Insert passes setCallbackWithChild on every success path with the container's own inline limit (array: maxInlineArrayElementSize; map: maxInlineMapValueSize of that element's key storable size); read-only iterators arm the mutation callback; whatever replaces a container's root carries the id read from the previous root before any id change, and ValueID does not depend on the inlined state. Parent-updater callbacks re-validate the child's identity (address and index) before writing, so a mutation reaches the slot that holds this child and no other.",
+		Rules: []string{"R4", "R5", "R1", "L8", "N1", "N2", "N4", "L9", "L6", "L12", "L16", "X7"},
+		Explanation: "every exported mutator of Array/OrderedMap (computed from may-effects on slab state over a closure-granular call graph) calls notifyParentIfNeeded on every success path (extra-data-only mutators may store the standalone root on the not-inlined edge instead); every child handed out by lookup/mutable iteration or stored by Set/Insert passes setCallbackWithChild on every success path with the container's own inline limit (array: maxInlineArrayElementSize; map: maxInlineMapValueSize of that element's key storable size); read-only iterators arm the mutation callback; whatever replaces a container's root carries the id read from the previous root before any id change, and ValueID does not depend on the inlined state. Parent-updater callbacks re-validate the child's identity (address and index) before writing, so a mutation reaches the slot that holds this child and no other. Cached sizes start from the encoded prefix of the object's kind and state wherever they are established or re-based (a wrong prefix wraps around on the next re-basing and makes an in-range request fail in splitRoot). Decoded children own their digest slices (a reloaded sibling is not disturbed by a mutation through another child's handle).",
 		NotDecided: "that the callback finds the right element after arbitrary parent restructuring (mutableElementIndex arithmetic), 'inlined exactly when it fits' (value-dependent), validity of ancestors.",
 		Technique:  "must-pass-through path rule over go/ssa CFG with interprocedural must-notify summaries; may-effect summaries to compute the mutator set; value-flow checks on callback arguments and root ids",
 	}
